@@ -35,6 +35,7 @@ def run(ctx):
     ctx.rule("R10.c", "in reactive.py every write of self._current_ after a suspension point is guarded by `self._current_task is task`, and the task is registered before the first suspension", floor=2)
     ctx.rule("R10.m", "setter model: Parameter.__set__ interpreted abstractly on every combination (576) of route x constant/readonly x validation outcome x identity x reference mode x watchers x batching: "
                       "a plain value overriding an existing link ends it (relink(None) is what cancels the pending task), except for the sync's own write", floor=1)
+    ctx.rule("R10.l", "link model: Parameters._update_ref with _setup_refs interpreted abstractly (parameter x/y/new x None / reference on a new source / on an already watched source / asynchronous reference x pending tasks, 48 cases): every old source watcher unwatched once on its own object, the pending task of that parameter cancelled and deregistered (others untouched), refs replaced/removed, exactly one recorded watcher per source of the new table watching exactly its dependency names", floor=1)
     ctx.rule("R10.k", "constructor model: Parameters._setup_params (with _instantiate_param) interpreted abstractly on 288 combinations of keywords x reference modes (plain value / reference with a value / reference without a value yet / asynchronous reference) x an unknown keyword: own copy of every instantiate=True default and pinned constants before any keyword is applied (and still there when a keyword assigns nothing), exactly the specified assignments, every reference and only references recorded", floor=1)
     ctx.rule("R10.j", "the scope that marks the sync's own writes replaces the syncing set by a fresh one and restores the saved one: it never mutates in place the set object it saved "
                       "(otherwise the marker outlives the scope and every later plain assignment looks like a sync write that must not cancel)", floor=1)
@@ -252,3 +253,5 @@ def run(ctx):
     setter_model.report(ctx, "C10", "R10.m")
     from checks import ctor_model
     ctor_model.report(ctx, "C10", "R10.k")
+    from checks import link_model
+    link_model.report(ctx, "C10", "R10.l")
